@@ -218,6 +218,17 @@ impl Assembler {
                 AssemblyError::ReExportedProcModuleNotFound(reexporteed_proc.clone())
             })?;
 
+            // a procedure re-exported from a kernel module becomes a kernel procedure; if it was
+            // compiled outside of the kernel context (e.g., by an earlier program) it may contain
+            // calls, which cannot be executed in a kernel
+            if context.is_kernel() {
+                let proc_cache = self.proc_cache.borrow();
+                let ref_proc = proc_cache.get_by_id(&ref_proc_id).expect("procedure not in cache");
+                if !ref_proc.callset().is_empty() {
+                    return Err(AssemblyError::call_in_kernel(reexporteed_proc.name()));
+                }
+            }
+
             // if the library path is provided, build procedure ID for the alias and add it to the
             // procedure cache
             let proc_mast_root = if let Some(path) = path {
